@@ -185,6 +185,8 @@ V['C12'] = [
     ('mod_c memoised', MC, "        r11, r22 = self.z1 * self.z1, self.z2 * self.z2\n        r = np.sqrt(r11 + r22)\n        return r", "        if getattr(self, '_r', None) is None:\n            r11, r22 = self.z1 * self.z1, self.z2 * self.z2\n            self._r = np.sqrt(r11 + r22)\n        return self._r", 'F', None),
     ('singular fallback only when all elements are singular', MC, '        out = (self.log() * other).exp()\n        non_invertible = np.abs(self.mod_c()) < 1e-15\n        if non_invertible.any():\n            out[non_invertible] = self[non_invertible]._pow_singular(other)\n        return out', '        non_invertible = np.abs(self.mod_c()) < 1e-15\n        if non_invertible.all():\n            return self._pow_singular(other)\n        return (self.log() * other).exp()', 'F', 'R-ELEMENTWISE'),
     ('singular fallback for the whole array', MC, '        out = (self.log() * other).exp()\n        non_invertible = np.abs(self.mod_c()) < 1e-15\n        if non_invertible.any():\n            out[non_invertible] = self[non_invertible]._pow_singular(other)\n        return out', '        non_invertible = np.abs(self.mod_c()) < 1e-15\n        if non_invertible.any():\n            return self._pow_singular(other)\n        return (self.log() * other).exp()', 'F', 'R-ELEMENTWISE'),
+    ('constructor fills the common shape by repetition (np.resize)', MC, '        z1, z2 = np.broadcast_arrays(z1, z2)', '        z1, z2 = np.asarray(z1), np.asarray(z2)\n        shape = np.broadcast(z1, z2).shape\n        z1, z2 = np.resize(z1, shape), np.resize(z2, shape)', 'F', 'R-ALIASES'),
+    ('constructor broadcasts with broadcast_to', MC, '        z1, z2 = np.broadcast_arrays(z1, z2)', '        z1, z2 = np.asarray(z1), np.asarray(z2)\n        shape = np.broadcast(z1, z2).shape\n        z1, z2 = np.broadcast_to(z1, shape), np.broadcast_to(z2, shape)', 'S', None),
 ]
 V['C13'] = [
     ('Shanks sign', EXT, 'sss = 1.0 / delta2 - 1.0 / delta1 + _TINY', 'sss = 1.0 / delta2 + 1.0 / delta1 + _TINY', 'F', 'R-SHANKS'),
@@ -195,6 +197,9 @@ V['C13'] = [
     ('np.abs -> abs', EXT, 'err2, err1 = np.abs(delta2), np.abs(delta1)', 'err2, err1 = abs(delta2), abs(delta1)', 'S', None),
     ('overflow no longer silenced', EXT, '    with warnings.catch_warnings():\n        warnings.simplefilter("ignore")  # ignore division by zero and overflow\n        delta2, delta1', "    with np.errstate(divide='ignore', invalid='ignore'):\n        delta2, delta1", 'F', 'R-NORAISE'),
     ('noise silenced with errstate(all)', EXT, '    with warnings.catch_warnings():\n        warnings.simplefilter("ignore")  # ignore division by zero and overflow\n        delta2, delta1', "    with np.errstate(all='ignore'):\n        delta2, delta1", 'S', None),
+    ('tolerances with an absolute floor (max_abs never below 1)', EXT, '    return np.maximum(np.abs(a), np.abs(b))', '    return np.maximum(np.maximum(np.abs(a), np.abs(b)), 1.0)', 'F', 'R-GUARD'),
+    ('irregularity measure of dea3 written as a product of magnitudes', EXT, 'smalle2 = abs(sss * e_1) <= 1.0e-4', 'smalle2 = abs(sss) * abs(e_1) <= 1.0e-4', 'S', None),
+    ('irregularity measure of dea3 against the differences', EXT, 'smalle2 = abs(sss * e_1) <= 1.0e-4', 'smalle2 = abs(sss) * np.maximum(err1, err2) <= 1.0e-4', 'F', 'R-GUARD'),
 ]
 V['C14'] = [
     ('EpsAlg returns the other diagonal', EXT, 'estlim = epstab[n % 2]', 'estlim = epstab[(n + 1) % 2]', 'F', 'R-EPSALG'),
@@ -207,6 +212,9 @@ V['C14'] = [
     ('revert fix 145ed5d (short-table branch without the floor)', EXT, 'abserr = max(6.0 * abs(result - epstab[0]), 5.0 * _EPS * abs(result))', 'abserr = 6.0 * abs(result - epstab[0])', 'F', 'R-DEA-FLOOR'),
     ('floor of the short-table branch applied after the branches', EXT, '            abserr = max(6.0 * abs(result - epstab[0]), 5.0 * _EPS * abs(result))\n        else:\n            result, abserr, n = self._dea(epstab, n)\n', '            abserr = 6.0 * abs(result - epstab[0])\n        else:\n            result, abserr, n = self._dea(epstab, n)\n        abserr = max(abserr, 5.0 * _EPS * abs(result))\n', 'S', None),
     ('Dea irregular test as a product of magnitudes', EXT, 'epsinf = abs(sss*e_1)', 'epsinf = abs(sss) * e1abs', 'S', None),
+    ('EpsAlg table as a shared default argument', EXT, '    def __init__(self):\n        self.epstab = []', '    def __init__(self, epstab=[]):\n        self.epstab = epstab', 'F', 'R-EPSALG'),
+    ('EpsAlg table from an optional argument, fresh list per object', EXT, '    def __init__(self):\n        self.epstab = []', '    def __init__(self, epstab=None):\n        self.epstab = [] if epstab is None else list(epstab)', 'S', None),
+    ('dea3 irregularity measure differs from the one of Dea', EXT, 'smalle2 = abs(sss * e_1) <= 1.0e-4', 'smalle2 = abs(sss) * np.maximum(err1, err2) <= 1.0e-4', 'F', 'R-DEA-DEA3'),
 ]
 V['C15'] = [
     ('fd_weights from a memoised table, last cached row', FB, '    return fd_weights_all(x, x0, n)[-1]', "    key = (tuple(np.asarray(x).tolist()), x0)\n    tab = _TABLES.get(key)\n    if tab is None or tab.shape[0] < n + 1:\n        tab = _TABLES[key] = fd_weights_all(x, x0, n)\n    return tab[-1]\n\n\n_TABLES = {}", 'F', 'R-ROW'),
